@@ -20,11 +20,11 @@ fi
 echo "CONFIRM $NAME: suite passes with the change"
 mkdir -p "$(dirname "$DEST")"; cp "$SRC/$DEMO" "$DEST"
 PKG=./$(dirname "$DEST")
-with=$(go test -vet=off -count=1 -run "$PAT" "$PKG" 2>&1 | tail -3)
+with=$(go test ${SEED_RACE:+-race} -vet=off -count=1 -run "$PAT" "$PKG" 2>&1 | tail -3)
 echo "$with" | grep -q "^ok" && { echo "CONFIRM $NAME: demo PASSES with the change (not discriminating): $with"; exit 1; }
 echo "CONFIRM $NAME: demo fails with the change"
 git checkout -q -- . 
-without=$(go test -vet=off -count=1 -run "$PAT" "$PKG" 2>&1 | tail -3)
+without=$(go test ${SEED_RACE:+-race} -vet=off -count=1 -run "$PAT" "$PKG" 2>&1 | tail -3)
 echo "$without" | grep -q "^ok" || { echo "CONFIRM $NAME: demo FAILS without the change: $without"; exit 1; }
 echo "CONFIRM $NAME: demo passes without the change"
 mkdir -p /verif/seeded/$NAME
